@@ -17,20 +17,40 @@
 #
 # vim: set fileencoding=utf-8 :
 
+from collections import OrderedDict
+
 from ...BoundaryCondition.CConversionBoundaryCondition import CConversionBoundaryCondition
+from ...Volume.ConstructVolumeT4 import extract_used_surfaces
 
 
-def writeT4BoundCond(dic_surf_mcnp, ofile):
-    '''Method writing GeomComp to the T4 input file.'''
+def writeT4BoundCond(dic_surf_mcnp, ofile, renumber=None, dic_volume=None):
+    '''Method writing the boundary conditions to the T4 input file.
+
+    :param renumber: the surface renumbering produced by the de-duplication
+        pass, if any: a flagged surface that was merged into an identical
+        surface is written with the ID of the latter.
+    :param dic_volume: the T4 volumes, if available: only surfaces that
+        appear in some volume are written to the T4 file and can carry a
+        boundary condition.
+    '''
     d_boundCond = CConversionBoundaryCondition(
         dic_surf_mcnp).conversionBoundCond()
-    if not d_boundCond:
+    used = None
+    if dic_volume is not None:
+        used = extract_used_surfaces(dic_volume.values())
+    bound_conds = OrderedDict()
+    for key, bound_cond in d_boundCond.items():
+        if renumber:
+            key = renumber.get(key, key)
+        if used is not None and key not in used:
+            continue
+        bound_conds.setdefault(key, bound_cond.typeOfBound)
+    if not bound_conds:
         return
     ofile.write("\nBOUNDARY_CONDITION\n")
-    ofile.write(str(len(d_boundCond)))
+    ofile.write(str(len(bound_conds)))
     ofile.write("\n")
-    for k in d_boundCond.keys():
-        p_typeOfBound = d_boundCond[k].typeOfBound
+    for k, p_typeOfBound in bound_conds.items():
         ofile.write("ALL_COMPLETE %s %s\n" % (p_typeOfBound, k))
     ofile.write("END_BOUNDARY_CONDITION")
     ofile.write("\n")
